@@ -25,7 +25,7 @@ RULE = ('seeded random histories of integrate(chunk)/predict/get_pva/get_time/se
         'predict/set_pva (the tests use exactly one integrate call); distinct = generator parameters')
 ASSUMPTIONS = ['Euler-angle extraction gives the same bits for an element whatever the batch length (probed at start-up; '
                'if not, the run is inconclusive)', 'in 2-D histories the states given to set_pva have VD = 0 (non-zero VD is C13)']
-REQUIRED_OBS = ['set_pva_angles_kept', 'tables_with_permuted_columns', 'model_comparisons', 'predict_calls', 'set_pva_calls', 'growth_events', 'empty_chunks', 'kernel_calls',
+REQUIRED_OBS = ['set_pva_with_permuted_labels', 'set_pva_angles_kept', 'tables_with_permuted_columns', 'model_comparisons', 'predict_calls', 'set_pva_calls', 'growth_events', 'empty_chunks', 'kernel_calls',
                 'invariant_evaluations', 'chunks_ending_exactly_at_capacity', 'predict_when_full', 'boundscheck_histories',
                 'index_conservation_checked', 'stale_return_checked', 'histories_with_repeated_stamps', 'chunks_ending_before_repeated_stamp', 'huge_single_calls']
 REQUIRED_CLASSES = {'all': ['3d', '2d', 'long', 'boundscheck', 'repeated_stamps', 'huge']}
